@@ -509,7 +509,7 @@ func (e *Engine) genHarness(fi *FuncInfo, ncases int) (string, string) {
 		Expr  *jsExpr `json:"expr"`
 	}
 	var cls []jsClause
-	for _, kind := range []string{"requires", "ensures", "guarantees"} {
+	for _, kind := range []string{"requires", "ensures", "offers", "guarantees"} {
 		for j, cl := range c.byKind(kind, "") {
 			name := fmt.Sprintf("%s/%s#%d", fi.Key, kind, j)
 			if cl.Label != "" {
